@@ -468,7 +468,7 @@ func (e *Engine) Generate(prop, tier string, seed uint64, run int) *sim.Plan {
 	// their k-th storage mutation and lasting n mutations. A stream of its own: the plans are
 	// otherwise what they were.
 	switch prop {
-	case "C01", "C02", "C04", "C05", "C09":
+	case "C01", "C02", "C04", "C05", "C09", "C15":
 		// (C10, C11 and C12 quantify over sessions and inputs, not over storage failures: what the
 		// cache must still serve after an error between a git write and its own update is not
 		// stated, and their oracles compare against stored data)
